@@ -216,14 +216,16 @@ def catalogue(R, aux, rich=False):
     if t in B.KEYS:
         ops = []
         for key in B.KEYS[t]:
-            for mb in ([None, 2, 3] if rich else [None, 2]):
+            for mb in ([None, 2, 2, 3] if rich else [None, 2]):
                 ops.append({"op": "groupby", "key": key, "shuffle": "tasks", "max_branch": mb})
             # blocksize: the default (2**20) costs ~0.3 s per partition (toolz.partition_all pads to 2**20), so it is
             # used in one variant of the random tier only; 1 and 2 make `partition` append several blocks per partition
-            for npart in ([None, 1, 2, 3] if rich else [None, 2]):
+            # (every append is an fsync, hence few disk variants in the enumerations)
+            for npart in ([None, 1, 2, 3] if rich else [None]):
                 ops.append({"op": "groupby", "key": key, "shuffle": "disk", "npartitions": npart, "blocksize": 1000})
-            ops.append({"op": "groupby", "key": key, "shuffle": "disk", "npartitions": 3, "blocksize": 1})
-            ops.append({"op": "groupby", "key": key, "shuffle": "disk", "npartitions": None, "blocksize": 2})
+            if rich or key == B.KEYS[t][0]:
+                ops.append({"op": "groupby", "key": key, "shuffle": "disk", "npartitions": 3, "blocksize": 1})
+                ops.append({"op": "groupby", "key": key, "shuffle": "disk", "npartitions": 2, "blocksize": 2})
         if rich:
             ops.append({"op": "groupby", "key": B.KEYS[t][0], "shuffle": "disk", "npartitions": 2})
         put("groupby", ops)
@@ -249,8 +251,10 @@ def catalogue(R, aux, rich=False):
         if t == "str":
             put("accumulate", [{"op": "accumulate", "binop": "add"}, {"op": "accumulate", "binop": "add", "initial": "z"}])
         ops = []
-        for k in sorted({0, 1, 2, n, n + 1}):
+        for k in (sorted({0, 1, 2, n, n + 1}) if rich else sorted({0, 2, n + 1})):
             for compute in (True, False):
+                if not rich and not compute and k != 2:
+                    continue
                 ops.append({"op": "take", "k": k, "npartitions": -1, "compute": compute})
                 if R.parts is not None:
                     for m in sorted({1, 2, len(R.parts)}):
@@ -338,6 +342,19 @@ def _reads_twice(op):
     return False
 
 
+def _shared_iterator(ops):
+    """a generator-valued partition (map_partitions with a generator function) reaches an operation that reads the bag
+    twice; repartition and concat in between may pass partitions through as aliases"""
+    for i, a in enumerate(ops):
+        if a["op"] == "map_partitions" and a["fn"] == "mp_gen":
+            for b in ops[i + 1 :]:
+                if _reads_twice(b):
+                    return True
+                if b["op"] not in ("repartition", "concat"):
+                    break
+    return False
+
+
 def _sig(spec, trace):
     src_parts = B.layout_parts(spec["src"]["data"], spec["src"]["part"])
     names = [op["op"] for op in spec["ops"]]
@@ -351,9 +368,7 @@ def _sig(spec, trace):
         empty_bag=any(op["op"] in B.REDUCING and not R.flat for op, R in trace),
         # a partition that is a one-shot iterator (map_partitions function returning a generator, which the docs allow)
         # is consumed by an operation that reads the bag twice
-        shared_iterator_partition=any(
-            a["op"] == "map_partitions" and a["fn"] == "mp_gen" and _reads_twice(b) for a, b in zip(spec["ops"], spec["ops"][1:])
-        ),
+        shared_iterator_partition=_shared_iterator(spec["ops"]),
         # one task references the same partition of the same bag twice (zip(x, x), x.product(x), map(f, x, x))
         same_key_twice_in_task=any(_same_key_twice(op) for op in spec["ops"][1:]),
         # set by _classify_accumulate after a failure: an accumulate without initial whose FIRST partition is empty
@@ -600,6 +615,17 @@ def _aux_from_seed(seed):
     return {"other": other}
 
 
+def _continues(op):
+    n = op["op"]
+    if LAST_ONLY(op) or n in ("fold", "count", "sum", "max", "min", "mean", "var", "std", "any", "all"):
+        return False
+    if n == "reduction":
+        return op["per"] == "list_it"
+    if n == "take":
+        return not op.get("compute", True)
+    return True
+
+
 _HEAVY = ("fold", "reduction", "foldby", "distinct", "frequencies", "topk", "stats", "groupby")
 
 
@@ -614,10 +640,14 @@ def random_pipeline(draw):
     ops = []
     for i in range(nops):
         fam = catalogue(R, aux, rich=True)
+        if i < nops - 1:
+            # not the last position: only operations that yield a bag the pipeline can continue with
+            fam = {k: [o for o in v if _continues(o)] for k, v in fam.items()}
+            fam = {k: v for k, v in fam.items() if v}
         names = sorted(fam)
         if i == nops - 1:
-            # the statement's reducing operations and the shuffles are where partitioning matters: 3x weight at the end
-            names = names + [x for x in names if x in _HEAVY] * 2
+            # the statement's reducing operations and the shuffles are where partitioning matters: extra weight at the end
+            names = names + [x for x in names if x in _HEAVY] * 2 + [x for x in names if x == "groupby"] * 3
         name = draw(st.sampled_from(names))
         op = draw(st.sampled_from(fam[name]))
         ops.append(op)
